@@ -20,15 +20,26 @@ from checks import _cliworld
 
 PROPERTY = "C05"
 LEVEL = "proof"
-LEVEL_TEXT = ("Lean 4 theorems over the walker transition system and the task-tail model (all graphs, failing subsets, schedules, both failure "
-              "modes): at the end of a keep-going walk a node is skipped iff a transitive dependency failed and every other node was built; a callback "
-              "is never entered below a failure; in fail-fast mode every state with an observed failure has a cancelled context under which the "
-              "pool model starts no command; every non-success path of the task tail writes no target result; exit status non-zero iff a failure "
-              "was recorded or Walk returned an error. Tied by trace inclusion (in-process) and by real CLI histories over two builds.")
+LEVEL_TEXT = ("Lean 4 theorems over the walker transition system, its composition with the pool tasks, and the build model Exec/Build (all "
+              "graphs, failing subsets, schedules, both failure modes): at the end of a keep-going walk a node is skipped iff a transitive "
+              "dependency failed and every other node was built; a callback is never entered below a failure; in fail-fast mode every reachable "
+              "state of the composition with an observed failure has a cancelled context and no task can start a command; on the build model a "
+              "step that leaves its target not ok leaves the cache (results, blobs, taints) unchanged, and in a second build from what the first "
+              "one left every target that was not ok is not ok again and - if its dependencies are ok - its command is executed again; exit status "
+              "non-zero iff a failure was recorded or Walk returned an error. Tied by trace inclusion (in-process) and by real CLI histories over "
+              "two builds.")
 LEVEL_NOTE = ("'Observed' failure = onComplete of the failing node; commands that start in the window between the failing process exiting and "
-              "onComplete are allowed by the property and by the model, the CLI oracle therefore uses a 1 s slack. exec.CommandContext refusing a "
-              "cancelled context is trusted. Atomic write of the target result belongs to C07.")
-TECHNIQUE = "Lean 4 invariant proofs over an executable LTS + trace inclusion + two-build CLI histories with four failure kinds"
+              "onComplete are allowed by the property and by the model, the CLI oracle therefore uses a 1 s slack. After a fail-fast failure a "
+              "callback may still be entered and a taken task may still answer from the cache (restore + ok): only command starts are excluded. "
+              "exec.CommandContext refusing a cancelled context is trusted. failed_not_cached / tail_failure_kinds / "
+              "missing_any_declared_output_fails are case analyses of the classification table Pool.execTail (true by its construction; they "
+              "record the order of the stages and which error paths wrap context.Canceled); the statements about the cache are "
+              "failed_step_stores_nothing, failed_step_ran and failed_target_is_attempted_again (mode all; mode minimal has the same cache, "
+              "verdicts and log by C15). Naming the failed targets in the summary is checked on the CLI only. With a remote cache tier a failed "
+              "remote write of the result record can leave the record in the local tier (RemoteWrapper.Set writes both concurrently): the target "
+              "is reported failed and the next build on the same machine is a local hit; not modelled, not exercised (no remote in the scenarios). "
+              "Atomic write of the target result belongs to C07.")
+TECHNIQUE = "Lean 4 invariant proofs over an executable LTS and the build model + trace inclusion + two-build CLI histories with four failure kinds"
 OBLIGATIONS = [
     "Grog.C05.keep_going_runs_iff",
     "Grog.C05.no_exec_below_failure",
@@ -37,6 +48,11 @@ OBLIGATIONS = [
     "Grog.C05.fail_fast_no_command_start",
     "Grog.C05.fail_fast_no_release",
     "Grog.C05.ctx_stays_cancelled",
+    # never cached: the build model
+    "Grog.C05.failed_step_stores_nothing",
+    "Grog.C05.failed_step_ran",
+    "Grog.C05.failed_target_is_attempted_again",
+    # the classification table of the task tail (case analyses)
     "Grog.C05.failed_not_cached",
     "Grog.C05.missing_any_declared_output_fails",
     "Grog.C05.tail_failure_kinds",
@@ -48,6 +64,8 @@ ASSUMPTIONS = [
     "selection closed under dependencies and graph acyclic (CfgOK)",
     "exec.CommandContext does not start a process under a cancelled context",
     "the failure causes used by the CLI histories are flag files outside the declared inputs, so cache keys do not change between the two builds",
+    "two-build theorem: injective key / commands write what they name (Good), sound initial cache (every cache reachable from the empty one is: "
+    "C01.cacheSound_preserved), well-formed order (WF), a single cache tier",
 ]
 
 KINDS = ["exit", "timeout", "missing", "missing-first", "check"]
